@@ -63,7 +63,7 @@ def run_check(P, tier, replay=None):
     # 4. cases on the implementation
     if replay:
         rp = json.load(open(replay, encoding='utf-8'))
-        cases = rp['cases'] if 'cases' in rp else [rp['case']]
+        cases = rp['cases'] if rp.get('cases') else [rp['case']]
         n_corpus = 0
     else:
         corpus = _corpus(P)
@@ -126,8 +126,12 @@ def run_check(P, tier, replay=None):
                                              P.coq_model_term(case, res))
             except Exception as e:      # noqa
                 model_txt = f"(model evaluation failed: {e})"
+        grp = None
+        if isinstance(case, dict) and case.get('group') is not None:
+            # the failing case needs its whole group (same process, in order)
+            grp = [c for c in cases if isinstance(c, dict) and c.get('group') == case['group']]
         path = core.write_replay(pid, {
-            'property': pid, 'what': msg, 'case': case, 'impl_result': res,
+            'property': pid, 'what': msg, 'case': case, 'cases': grp, 'impl_result': res,
             'model_result': model_txt, 'seed': sd, 'tier': tier,
             'broken': broken + (['correspondence:' + P.COQ_CHECK] if failing or errors else [])})
         lines.append(f"VIOLATION property={pid} replay={path}{suffix}")
